@@ -4,7 +4,8 @@
    correspondence run executes (Update/UpdateDefs.v: step / send_client / ...). *)
 From LV Require Import Region.RegionDefs Region.RegionProofs Update.UpdateDefs Update.UpdateFacts
      Update.UpdateProofs0 Update.UpdateProofs Update.UpdateThms Update.NewFB Update.Slices Update.Trans
-     Update.Life Update.StateLevel Update.Audit02 Update.NoCopy Update.SliceInv Update.InvAll.
+     Update.Life Update.StateLevel Update.Audit02 Update.NoCopy Update.SliceInv Update.InvAll Update.Count Update.CountRel.
+From LV Require Wire.CountsModel.
 Local Open Scope Z_scope.
 
 (* ---------------------------------------------------------------- the invariant
@@ -267,6 +268,39 @@ Proof. exact setpixelformat_resync. Qed.
 Theorem C02_any_lossless_encoding_raw_only : forall deliver st c,
   delivers_fb deliver -> send_client_gen (client_apply_with deliver) st c = send_client st c.
 Proof. exact any_lossless_encoding. Qed.
+
+(* ---------------------------------------------------------------- the announced count
+   rfbSendFramebufferUpdate's two-stage repair of the 16-bit count is mirrored in [count_fix] (bounding box of the
+   pixel region; if the copy rectangles alone reach the field size they are merged into the pixel region): for
+   every state of the invariant and every client the announced count equals the number of rectangles sent
+   (cursor / size pseudo-rectangle, CopyRects, pixel rectangles) and stays below 0xFFFF - no wrap-around *)
+Theorem C02_announced_count_exact : forall st c c' n rects,
+  Inv st -> In c (sClients st) -> send_client st c = Some (c', Some (n, rects)) ->
+  n = Z.of_nat (length rects) /\ n < 65535.
+Proof. exact send_count. Qed.
+
+(* the same announced count as the count-stage model of property C03 (Wire/CountsModel.v, announce_fixed with both
+   repairs, Raw counting rule), written independently from the same C text: for any rectangle lists with the
+   lengths of the two regions *)
+Theorem C02_count_agrees_with_C03_model : forall st UC U (region copyl : list Wire.CountsModel.xywh) cmw cmh s,
+  WF UC -> WF U ->
+  Z.of_nat (length region) = rgn_count U -> Z.of_nat (length copyl) = rgn_count UC ->
+  exists region' keep,
+    Wire.CountsModel.announce_fixed true 0 false cmw cmh (sMaxRects st) region copyl s =
+    Some (Wire.CountsModel.wrap16 (rgn_count (fst (count_fix UC U)) + rgn_count (coalesce st (snd (count_fix UC U))) + s),
+          region', false, keep).
+Proof. exact count_stage_agrees. Qed.
+
+Theorem C02_count_repair_sound : forall UC U,
+  WF UC -> WF U ->
+  WF (fst (count_fix UC U)) /\ WF (snd (count_fix UC U)) /\
+  (forall x y, rgn_mem U x y = true -> rgn_mem (snd (count_fix UC U)) x y = true) /\
+  (forall x y, rgn_mem (fst (count_fix UC U)) x y = true -> rgn_mem UC x y = true) /\
+  (forall x y, rgn_mem UC x y = true ->
+               rgn_mem (fst (count_fix UC U)) x y = true \/ rgn_mem (snd (count_fix UC U)) x y = true) /\
+  (fst (count_fix UC U) = UC \/ fst (count_fix UC U) = rgn_empty) /\
+  rgn_count (fst (count_fix UC U)) + rgn_count (snd (count_fix UC U)) + 6 < 65535.
+Proof. exact count_fix_spec. Qed.
 
 (* ---------------------------------------------------------------- coalescing *)
 Theorem C02_coalesce_sound : forall st U,
